@@ -143,7 +143,9 @@ def oracle(case, facts, details):
         # the error conversion can be spelled in several equivalent ways; a body that spells it in none of the known ones is
         # not evidence of a violation (it shows up as a disagreement with the model; behaviour is observed by C02 / C12 at L2)
         conv = re.search(r"map_err \((?:Into :: into|From :: from|\| (\w+) \| \1 \. into \(\)|\| (\w+) \| (?:Into :: into|From :: from) \(\2\))\)|\? ;? ?\}? ?Ok \(", body)
-        if not conv and "map_err" not in body and "?" not in body:
+        # (... incl. an explicit match that rebuilds the Err with the converted error)
+        arm_conv = re.search(r"Err \((\w+)\) => (?:return )?Err \((?:(?:Into :: into|From :: from) \(\1\)|\1 \. into \(\))\)", body)
+        if not conv and not arm_conv and "map_err" not in body and "?" not in body:
             fails.append("entry point %s returns the dispatch outcome without converting the error: %s" % (name, body))
         if not any("entry_point" in a for a in det["attrs"]):
             fails.append("entry point %s lacks the entry_point attribute" % name)
